@@ -7,8 +7,11 @@
 mod util;
 mod c20_cache;
 mod c15_bbox;
+mod c04_recompress;
 mod c13_concurrent;
 mod c14_stream;
+mod formats;
+mod http;
 mod memsrc;
 mod pipeline;
 
@@ -46,9 +49,16 @@ fn main() {
 		"c20" => c20_cache::run(&ctx),
 		"c15" => c15_bbox::run(&ctx),
 		"c14" => c14_stream::run(&ctx),
+		"c04" => c04_recompress::run(&ctx),
+		"c05" => http::run_c05(&ctx),
+		"c07" => http::run_c07(&ctx),
+		"formats" => formats::run(&ctx, &cmd),
 		"c13" => c13_concurrent::run(&ctx),
 		"c13probe" => c13_concurrent::probe(ctx.replay.as_deref().unwrap_or("")),
-		"pipe" | "c02" | "c03" | "c06" | "c08" | "c09" => pipeline::run(&ctx, &cmd),
+		"pipe" | "c06" | "c08" | "c09" => pipeline::run(&ctx, &cmd),
+		// C02 / C03: pipeline operators (model-compared) + container readers (spec level)
+		"c02" | "c03" => (|| { let mut col = util::Collector::new(&ctx.out)?; pipeline::run_into(&ctx, &cmd, &mut col)?; formats::run_into(&ctx, &cmd, &mut col)?; col.finish() })(),
+		"c01" => formats::run(&ctx, &cmd),
 		x => { eprintln!("unknown command {x}"); std::process::exit(2); }
 	};
 	if let Err(e) = res {
